@@ -209,6 +209,69 @@ theorem inv_advance (st : St) (d : Nat) (h : Inv st) : Inv (advance .stamped st 
   · intro j hjm
     exact i1.ser j (by rw [i2]; exact (List.mem_filter.mp hjm).1)
 
+theorem reload_jobs_prefix (m : Mode) (st : St) (new : Req) :
+    ∃ extra, (reload m st new).jobs = st.jobs ++ extra := by
+  unfold reload
+  simp only [Bool.false_eq_true, if_false]
+  split
+  · split
+    · exact ⟨[], by simp⟩
+    · exact ⟨_, by simp only [List.append_assoc]; rfl⟩
+  · split
+    · exact ⟨_, by simp only [List.append_assoc]; rfl⟩
+    · exact ⟨[], by simp⟩
+
+/-- The un-manage a reload schedules is by MEMBERSHIP of the expression text: whatever the multiplicities, an
+    expression the new request still contains is in no job that this reload adds. -/
+theorem reload_job_spares_contained (st : St) (new : Req) (e : String) (he : e ∈ new.eps) :
+    ∀ j ∈ (reload .stamped st new).jobs, j ∉ st.jobs → j.global = false → e ∉ j.eps := by
+  intro j hj hnot hg
+  unfold reload at hj
+  simp only [Bool.false_eq_true, if_false] at hj
+  have key : ∀ nm : Bool, j ∈ (if st.cur.ma && !nm then [(⟨st.now + ttl, st.serial + 1, true, []⟩ : Job)] else []) ++
+      (if (st.cur.eps.filter fun x => !new.eps.contains x).isEmpty then []
+       else [(⟨st.now + ttl, st.serial + 1, false, st.cur.eps.filter fun x => !new.eps.contains x⟩ : Job)]) →
+      e ∉ j.eps := by
+    intro nm hmem
+    rw [(newJobs_serial (st := st) (prev := st.cur) hmem).2.1 hg]
+    simp only [List.mem_filter, Bool.not_eq_true', List.contains_eq_mem, decide_eq_false_iff_not, not_and,
+      Classical.not_not]
+    intro _
+    exact he
+  split at hj
+  · split at hj
+    · exact absurd hj hnot
+    · simp only [List.append_assoc, List.mem_append] at hj
+      rcases hj with hj | hj
+      · exact absurd hj hnot
+      · exact key _ (List.mem_append.mpr hj)
+  · split at hj
+    · simp only [List.append_assoc, List.mem_append] at hj
+      rcases hj with hj | hj
+      · exact absurd hj hnot
+      · exact key _ (List.mem_append.mpr hj)
+    · exact absurd hj hnot
+
+theorem inv_reloadNow (st : St) (new : Req) (h : Inv st) : Inv (reloadNow .stamped st new) := by
+  unfold reloadNow
+  have h1 := inv_reload st new h
+  split
+  · exact h1
+  · obtain ⟨extra, hx⟩ := reload_jobs_prefix .stamped st new
+    obtain ⟨i1, i2, i3⟩ := inv_fireAll ((reload .stamped st new).jobs.drop st.jobs.length).reverse
+      (reload .stamped st new) (fun j hj => List.mem_of_mem_drop (List.mem_reverse.mp hj)) h1
+    have hsub : ∀ j ∈ st.jobs, j ∈ (reload .stamped st new).jobs := by
+      intro j hj; rw [hx]; exact List.mem_append_left _ hj
+    refine ⟨?_, ?_, ?_⟩
+    · intro hc e he
+      obtain ⟨hm, hj⟩ := i1.eps hc e he
+      exact ⟨hm, fun j hjm => hj j (by rw [i2]; exact hsub j hjm)⟩
+    · intro hc
+      obtain ⟨ha, hj⟩ := i1.all hc
+      exact ⟨ha, fun j hjm => hj j (by rw [i2]; exact hsub j hjm)⟩
+    · intro j hjm
+      exact i1.ser j (by rw [i2]; exact hsub j hjm)
+
 theorem inv_run (evs : List Ev) : ∀ (st : St), Inv st → Inv (run .stamped st evs) := by
   induction evs with
   | nil => intro st h; exact h
@@ -217,6 +280,7 @@ theorem inv_run (evs : List Ev) : ∀ (st : St), Inv st → Inv (run .stamped st
     apply ih
     cases ev with
     | reload r => exact inv_reload st r h
+    | reloadNow r => exact inv_reloadNow st r h
     | advance d => exact inv_advance st d h
     | fail p d => exact ⟨h.eps, h.all, h.ser⟩
 
@@ -235,6 +299,7 @@ theorem requiredOK_of_inv (st : St) (h : Inv st) : requiredOK st.cur st.all st.m
 def Spaced (st : St) : List Ev → Prop
   | [] => True
   | .reload r :: evs => st.jobs = [] ∧ Spaced (reload .byString st r) evs
+  | .reloadNow r :: evs => st.jobs = [] ∧ Spaced (reloadNow .byString st r) evs
   | .advance d :: evs => Spaced (advance .byString st d) evs
   | .fail p d :: evs => Spaced { st with failPut := p, failDel := d } evs
 
@@ -332,6 +397,19 @@ theorem invS_advance (st : St) (d : Nat) (h : InvS st) : InvS (advance .byString
     obtain ⟨ha, hj⟩ := i1.all hc
     exact ⟨ha, fun j hjm => hj j (by rw [i2]; exact (List.mem_filter.mp hjm).1)⟩
 
+theorem invS_reloadNow (st : St) (new : Req) (hj : st.jobs = []) (h : InvS st) : InvS (reloadNow .byString st new) := by
+  unfold reloadNow
+  have h1 := invS_reload st new hj h
+  split
+  · exact h1
+  · obtain ⟨i1, _⟩ := invS_fireAll ((reload .byString st new).jobs.drop st.jobs.length).reverse
+      (reload .byString st new) (fun j hjm => List.mem_of_mem_drop (List.mem_reverse.mp hjm)) h1
+    refine ⟨?_, ?_⟩
+    · intro hc e he
+      exact ⟨(i1.eps hc e he).1, by simp [hj]⟩
+    · intro hc
+      exact ⟨(i1.all hc).1, by simp [hj]⟩
+
 theorem invS_run (evs : List Ev) : ∀ (st : St), InvS st → Spaced st evs → InvS (run .byString st evs) := by
   induction evs with
   | nil => intro st h _; exact h
@@ -339,6 +417,7 @@ theorem invS_run (evs : List Ev) : ∀ (st : St), InvS st → Spaced st evs → 
     intro st h hs
     cases ev with
     | reload r => exact ih _ (invS_reload st r hs.1 h) hs.2
+    | reloadNow r => exact ih _ (invS_reloadNow st r hs.1 h) hs.2
     | advance d => exact ih _ (invS_advance st d h) hs
     | fail p d => exact ih _ ⟨h.eps, h.all⟩ hs
 
